@@ -47,7 +47,8 @@ func mSqrtInv(matrix Matrix) (Matrix, error) {
   }
   X1 := NullDenseMatrix(matrix.ElementType(), n, n)
   X1.MmulS(S1.MdotM(X0, t), c)
-  for t1.Mnorm(S1.MsubM(X0, X1)).GetFloat64() > 1e-8 {
+  // Mnorm returns the squared Frobenius norm: stop when ||X0 - X1||_F <= 1e-8
+  for t1.Mnorm(S1.MsubM(X0, X1)).GetFloat64() > 1e-8*1e-8 {
     verifhook.Tick("msqrtInv.iter")
     X0, X1 = X1, X0
     t, err := matrixInverse.Run(S1.MaddM(I, S2.MdotM(A, S1.MdotM(X0, X0))))
